@@ -1,1 +1,112 @@
-// harnesses for vk_vdpa
+// Child module of vhost::vhost_kern::vdpa.  C19 for the vhost-vDPA backend.
+use super::*;
+use crate::vhost_kern::verif::*;
+use std::os::unix::io::FromRawFd;
+
+fn mk() -> std::mem::ManuallyDrop<VhostKernVdpa<&'static vm_memory::GuestMemoryMmap<()>>> {
+    // SAFETY: descriptor number only
+    std::mem::ManuallyDrop::new(VhostKernVdpa::with(unsafe { File::from_raw_fd(KFD) }, empty_mem(), kani::any()))
+}
+fn wb32(v: u32, off: usize) {
+    kg().wb[..4].copy_from_slice(&v.to_le_bytes());
+    kg().wb_off = off;
+    kg().wb_len = 4;
+}
+
+// @harness props=C19 tier=quick reach=off bound="vDPA queries: device id, status, vring num, config size, vqs count, group num, as num, iova range, vring group - all written-back values" stubs="vmm_sys_util::ioctl::* (ghost kernel), sysconf"
+k_proof! { fn c19_vdpa_queries() {
+    let k = mk();
+    let back: u32 = kani::any();
+    wb32(back, 0);
+    let r = k.get_device_id();
+    expect_ioctl(uapi::U_VHOST_VDPA_GET_DEVICE_ID, 4);
+    assert!(matches!(r, Ok(v) if v == back)); std::mem::forget(r); reset();
+    let r = k.get_config_size();
+    expect_ioctl(uapi::U_VHOST_VDPA_GET_CONFIG_SIZE, 4);
+    assert!(matches!(r, Ok(v) if v == back)); std::mem::forget(r); reset();
+    let r = k.get_vqs_count();
+    expect_ioctl(uapi::U_VHOST_VDPA_GET_VQS_COUNT, 4);
+    assert!(matches!(r, Ok(v) if v == back)); std::mem::forget(r); reset();
+    let r = k.get_group_num();
+    expect_ioctl(uapi::U_VHOST_VDPA_GET_GROUP_NUM, 4);
+    assert!(matches!(r, Ok(v) if v == back)); std::mem::forget(r); reset();
+    let r = k.get_as_num();
+    expect_ioctl(uapi::U_VHOST_VDPA_GET_AS_NUM, 4);
+    assert!(matches!(r, Ok(v) if v == back)); std::mem::forget(r); reset();
+    kg().wb_len = 1;
+    let r = k.get_status();
+    expect_ioctl(uapi::U_VHOST_VDPA_GET_STATUS, 1);
+    assert!(matches!(r, Ok(v) if v == back as u8)); std::mem::forget(r); reset();
+    kg().wb_len = 2;
+    let r = k.get_vring_num();
+    expect_ioctl(uapi::U_VHOST_VDPA_GET_VRING_NUM, 2);
+    assert!(matches!(r, Ok(v) if v == back as u16)); std::mem::forget(r); reset();
+    // iova range: two u64
+    let (a, b): (u64, u64) = (kani::any(), kani::any());
+    kg().wb[..8].copy_from_slice(&a.to_le_bytes());
+    kg().wb[8..16].copy_from_slice(&b.to_le_bytes());
+    kg().wb_off = 0;
+    kg().wb_len = 16;
+    let r = k.get_iova_range();
+    expect_ioctl(uapi::U_VHOST_VDPA_GET_IOVA_RANGE, uapi::USZ_VDPA_IOVA_RANGE);
+    assert!(matches!(&r, Ok(v) if v.first == a && v.last == b), "C19: iova range as written back"); std::mem::forget(r); reset();
+    // vring group: index in, group out
+    let qi: u32 = kani::any();
+    wb32(back, uapi::UOFF_VRING_STATE_NUM);
+    let r = k.get_vring_group(qi);
+    expect_ioctl(uapi::U_VHOST_VDPA_GET_VRING_GROUP, uapi::USZ_VRING_STATE);
+    assert!(a32(uapi::UOFF_VRING_STATE_INDEX) == qi && matches!(r, Ok(v) if v == back)); std::mem::forget(r);
+} }
+
+// @harness props=C19 tier=quick reach=off bound="vDPA setters: set_status, set_vring_enable, set_config_call, set_group_asid, suspend - all argument values" stubs="vmm_sys_util::ioctl::* (ghost kernel), sysconf"
+k_proof! { fn c19_vdpa_setters() {
+    let k = mk();
+    let s: u8 = kani::any();
+    let r = k.set_status(s);
+    expect_ioctl(uapi::U_VHOST_VDPA_SET_STATUS, 1);
+    assert!(kg().arg[0] == s); std::mem::forget(r); reset();
+    let qi: usize = kani::any();
+    let en: bool = kani::any();
+    let r = k.set_vring_enable(qi, en);
+    expect_ioctl(uapi::U_VHOST_VDPA_SET_VRING_ENABLE, uapi::USZ_VRING_STATE);
+    assert!(a32(uapi::UOFF_VRING_STATE_INDEX) == qi as u32 && a32(uapi::UOFF_VRING_STATE_NUM) == en as u32); std::mem::forget(r); reset();
+    // SAFETY: descriptor number only
+    let ev = std::mem::ManuallyDrop::new(unsafe { EventFd::from_raw_fd(33) });
+    let r = k.set_config_call(&ev);
+    expect_ioctl(uapi::U_VHOST_VDPA_SET_CONFIG_CALL, 4);
+    assert!(a32(0) == 33); std::mem::forget(r); reset();
+    let (g, asid): (u32, u32) = (kani::any(), kani::any());
+    let r = k.set_group_asid(g, asid);
+    expect_ioctl(uapi::U_VHOST_VDPA_SET_GROUP_ASID, uapi::USZ_VRING_STATE);
+    assert!(a32(uapi::UOFF_VRING_STATE_INDEX) == g && a32(uapi::UOFF_VRING_STATE_NUM) == asid); std::mem::forget(r); reset();
+    let r = k.suspend();
+    expect_ioctl(uapi::U_VHOST_VDPA_SUSPEND, 0);
+    std::mem::forget(r);
+} }
+
+// @harness props=C19 tier=quick reach=off bound="vDPA set_vring_addr: all ring sizes/addresses/flags/log address; addresses are passed unchanged" stubs="vmm_sys_util::ioctl::* (ghost kernel), sysconf"
+k_proof! { fn c19_vdpa_vring_addr() {
+    let k = mk();
+    let qi: usize = kani::any();
+    let c = VringConfigData {
+        queue_max_size: kani::any(), queue_size: kani::any(), flags: kani::any(),
+        desc_table_addr: kani::any(), used_ring_addr: kani::any(), avail_ring_addr: kani::any(),
+        log_addr: if kani::any() { Some(kani::any()) } else { None },
+    };
+    let r = k.set_vring_addr(qi, &c);
+    kani::cover!(r.is_ok());
+    let ok = ref_ring_valid(&c, 0, false);
+    assert!(r.is_ok() == ok, "C19: accepted iff size is a power of two within the maximum and the log flag has an address");
+    if ok {
+        expect_ioctl(uapi::U_VHOST_SET_VRING_ADDR, uapi::USZ_VRING_ADDR);
+        assert!(a32(uapi::UOFF_VRING_ADDR_INDEX) == qi as u32 && a32(uapi::UOFF_VRING_ADDR_FLAGS) == c.flags);
+        assert!(a64(uapi::UOFF_VRING_ADDR_DESC) == c.desc_table_addr && a64(uapi::UOFF_VRING_ADDR_USED) == c.used_ring_addr
+            && a64(uapi::UOFF_VRING_ADDR_AVAIL) == c.avail_ring_addr, "C19: vDPA ring addresses are handed over unchanged");
+        assert!(a64(uapi::UOFF_VRING_ADDR_LOG) == if c.flags & 1 != 0 { c.log_addr.unwrap_or(0) } else { 0 });
+    } else {
+        assert!(kg().calls == 0, "C19: refused before any ioctl");
+    }
+    std::mem::forget(r);
+} }
+
+// dma_map / dma_unmap go through send_iotlb_msg -> write(2): not reachable for Kani (see vk_mod.rs).
